@@ -21,9 +21,19 @@ package daemon
 //@   ensures result1 == nil && len(topCfg) == 0 ==> jsonOf(result0) == bytesOf(baseCfg)
 //@   ensures result1 == nil && len(topCfg) > 0 ==> jsonOf(result0) == mergePatch(bytesOf(baseCfg), bytesOf(topCfg))
 
+//@ # the daemon's file path: the layered result is exactly what MergeConfigAndUnmarshal produced from the file (base) and the
+//@ # node's dynamic config (overlay); nothing but a failed read, merge/decode or secret lookup rejects it — in particular
+//@ # an overlay (even an empty one) never makes a base that loads alone fail
+//@ ghost c20ffail bool = false
+//@ ghost c20fcfg *Config
 //@ func GetConfigFromFileWithMerge
 //@   panics
 //@   ensures result1 == nil ==> result0 != nil
+//@   at call os.ReadFile: ghost c20ffail = (result1 != nil)
+//@   at call MergeConfigAndUnmarshal: ghost c20ffail = (c20ffail || result1 != nil)
+//@   at call MergeConfigAndUnmarshal: ghost c20fcfg = result0
+//@   at call GetAddonSecret: ghost c20ffail = (c20ffail || result2 != nil)
+//@   ensures !c20ffail ==> result1 == nil && result0 == c20fcfg
 
 //@ func Config.Populate
 //@   requires c != nil
